@@ -81,7 +81,9 @@ Definition cff_rel (k : Q) (c c' : XQ) : Prop :=
 Definition ans_rel (k : Q) (a a' : @Ans XQ) : Prop := sz_rel (sc k) (fst a) (fst a') /\ op_rel (sc k) (snd a) (snd a').
 
 (* what the flex algorithm reads of a style, up to scaling *)
-Definition fstyle_wrel (k : Q) (s s' : FStyle XQ) : Prop :=
+(* `r`: the flex direction (is_row) of the container that reads the style as one of its CHILDREN's -- only the flex-basis resolution
+   depends on it (the box-sizing adjustment of flex_basis is the MAIN-axis component of padding + border) *)
+Definition fstyle_wrel (k : Q) (r : bool) (s s' : FStyle XQ) : Prop :=
   display (fs_core s') = display (fs_core s) /\ position (fs_core s') = position (fs_core s) /\
   overflow (fs_core s') = overflow (fs_core s) /\ sc k (scrollbar_width (fs_core s)) (scrollbar_width (fs_core s')) /\
   rc_rel (lpa_rel k) (fs_inset s) (fs_inset s') /\
@@ -98,7 +100,7 @@ Definition fstyle_wrel (k : Q) (s s' : FStyle XQ) : Prop :=
   (* generate_anonymous_flex_items: a child's size / min_size / max_size / margin / padding / border *)
   (forall c c', kconst_rel k c c' -> ci_rel k (child_info c (to_child s)) (child_info c' (to_child s'))) /\
   (* determine_flex_base_size: a child's flex_basis *)
-  (forall c c' av av' ci ci', kconst_rel k c c' -> sz_rel (av_rel (sc k)) av av' -> ci_rel k ci ci' ->
+  (forall c c' av av' ci ci', k_row c = r -> kconst_rel k c c' -> sz_rel (av_rel (sc k)) av av' -> ci_rel k ci ci' ->
      benv_rel k (base_env c av (to_child s) ci) (base_env c' av' (to_child s') ci')) /\
   (* determine_used_cross_size: `size.cross.is_auto()`, max_size ignoring the aspect ratio *)
   (forall c c' lc lc' ci ci' fi fi' h h', kconst_rel k c c' -> sc k lc lc' -> ci_rel k ci ci' -> sc k h h' ->
